@@ -5,8 +5,6 @@ import (
 	"strings"
 )
 
-var uid int64
-
 type Builder struct {
 	LastErr error
 	//module  *Module
@@ -436,14 +434,10 @@ func (b *Builder) Uses(o interface{}, ident string) *Uses {
 	if h, valid := b.parentDataDefinition(o, ident); valid {
 		x.parent = h
 		x.originalParent = h
-		x.schemaId = uid
-		uid++
 		if err := h.addDataDefinition(&x); err != nil {
 			b.setErr(err)
 		}
 	}
-	// anything unique
-	//x.schemaId = &x
 	return &x
 }
 
